@@ -159,6 +159,15 @@ func allFields() []fieldRef {
 	return fs
 }
 
+// scSig: the signature part naming the scenario's function; scenarios that exercise a known
+// finding carry their own name, so that the finding's signature matches nothing else.
+func scSig(sc *Scenario) string {
+	if sc.OwnSig {
+		return sc.Func + "@" + sc.Name
+	}
+	return sc.Func
+}
+
 // priceFormula: own cost x multiplier + documented per-byte components under schedule S.
 func priceFormula(sc *Scenario, per map[string]uint64, S map[string]map[string]uint64) (want uint64, exact bool) {
 	exact = true
@@ -228,12 +237,12 @@ func runC16(c *harness.Ctx) {
 		if exact {
 			if cons0 != want {
 				s0.M.Enabled["C16"] = true
-				s0.M.viol("C16", "absolute-price:"+sc.Func, fmt.Sprintf("scenario %s consumed %d under the base schedule, the documented formula gives %d (own cost x %d + per-byte %v)", sc.Name, cons0, want, sc.Mult, per), l0)
+				s0.M.viol("C16", "absolute-price:"+scSig(sc), fmt.Sprintf("scenario %s consumed %d under the base schedule, the documented formula gives %d (own cost x %d + per-byte %v)", sc.Name, cons0, want, sc.Mult, per), l0)
 			}
 			R.Cover("C16/absolute-formula")
 		} else if cons0 < want {
 			s0.M.Enabled["C16"] = true
-			s0.M.viol("C16", "absolute-price:"+sc.Func, fmt.Sprintf("scenario %s consumed %d, less than own cost x multiplier = %d", sc.Name, cons0, want), l0)
+			s0.M.viol("C16", "absolute-price:"+scSig(sc), fmt.Sprintf("scenario %s consumed %d, less than own cost x multiplier = %d", sc.Name, cons0, want), l0)
 		}
 		// single-field perturbations
 		for fi, f := range fields {
@@ -263,10 +272,10 @@ func runC16(c *harness.Ctx) {
 			}
 			if anyMultiple {
 				if d < 0 || uint64(d)%delta != 0 {
-					sF.M.viol("C16", "sensitivity:"+sc.Func+":"+f.name, fmt.Sprintf("scenario %s: raising %s by %d changed the consumption by %d (not a non-negative multiple)", sc.Name, f.name, delta, d), lF)
+					sF.M.viol("C16", "sensitivity:"+scSig(sc)+":"+f.name, fmt.Sprintf("scenario %s: raising %s by %d changed the consumption by %d (not a non-negative multiple)", sc.Name, f.name, delta, d), lF)
 				}
 			} else if d != wantD {
-				sF.M.viol("C16", "sensitivity:"+sc.Func+":"+f.name, fmt.Sprintf("scenario %s: raising %s by %d changed the consumption by %d, expected %d", sc.Name, f.name, delta, d, wantD), lF)
+				sF.M.viol("C16", "sensitivity:"+scSig(sc)+":"+f.name, fmt.Sprintf("scenario %s: raising %s by %d changed the consumption by %d, expected %d", sc.Name, f.name, delta, d, wantD), lF)
 			}
 			R.Cover("C16/sensitivity-measurements")
 			R.DistinctS("C16", sc.Name, f.name)
@@ -288,7 +297,7 @@ func runC16(c *harness.Ctx) {
 				sB, lB, consB, okB := measure(c, sc, Sf, bad)
 				if !okB || consB != consF {
 					sB.M.Enabled["C16"] = true
-					sB.M.viol("C16", "rejected-schedule-applied:"+sc.Func, fmt.Sprintf("scenario %s: after a schedule with a zero/missing %s the consumption is %d, under the last accepted schedule it is %d", sc.Name, f.name, consB, consF), lB)
+					sB.M.viol("C16", "rejected-schedule-applied:"+scSig(sc), fmt.Sprintf("scenario %s: after a schedule with a zero/missing %s the consumption is %d, under the last accepted schedule it is %d", sc.Name, f.name, consB, consF), lB)
 				}
 				R.Cover("C16/rejected-schedule-checks")
 			}
@@ -319,10 +328,28 @@ func runC16(c *harness.Ctx) {
 			sS, lS, got, ok2 := measure(c, sc, seq...)
 			if ok1 != ok2 || got != want {
 				sS.M.Enabled["C16"] = true
-				sS.M.viol("C16", "sequence:"+sc.Func, fmt.Sprintf("scenario %s: after %d schedule changes the consumption is %d, under the last accepted schedule alone it is %d", sc.Name, len(seq), got, want), lS)
+				sS.M.viol("C16", "sequence:"+scSig(sc), fmt.Sprintf("scenario %s: after %d schedule changes the consumption is %d, under the last accepted schedule alone it is %d", sc.Name, len(seq), got, want), lS)
 			}
 			R.Cover("C16/sequence-checks")
 			R.Eval(1)
+		}
+		// a schedule change accepted while the gated functions are still inactive is in force once
+		// they are activated
+		{
+			S1 := world.GasMapFrom(func(_, _ string, idx int) uint64 { return 7000 + uint64(idx)*37 })
+			_, _, want, ok1 := measure(c, sc, S1)
+			sL := NewScn(c.Rand("scn").Fork(harness.Hash64(sc.Name)), c.R, ScnOpts{Shards: sc.Shards, GasMap: world.GasMapFrom(baseSched), Enabled: []string{"C16"}, LateActivation: true})
+			sL.U.W.GasScheduleChange(S1)
+			sL.U.W.ConfirmEpoch(5)
+			lL := sc.Exec(sL, gen.BigGas)
+			if lL != nil {
+				got, ok2 := node.Consumed(lL)
+				ok2 = ok2 && lL.OK
+				if ok1 != ok2 || (ok1 && got != want) {
+					sL.M.viol("C16", "schedule-change-while-inactive:"+scSig(sc), fmt.Sprintf("scenario %s: a schedule accepted before the activation epoch was confirmed gives consumption %d after activation, that schedule alone gives %d", sc.Name, got, want), lL)
+				}
+				R.Cover("C16/late-activation-checks")
+			}
 		}
 	}
 }
